@@ -158,11 +158,7 @@ func SelfCheck(dir string) (report map[string]int, failures []string, err error)
 			raw, _ := read(bref.file)
 			sb, err := DecodeBlock(sp, bref.fork, raw)
 			if err != nil {
-				if fs[5] == "ERR" && strings.Contains(line, "decode=fail") {
-					report["trans_undecodable_block"]++
-				} else {
-					fail(ln, "block does not decode: %v", err)
-				}
+				fail(ln, "block does not decode: %v", err)
 				continue
 			}
 			if !bytes.Equal(EncodeObj(sp, sb), raw) {
@@ -333,6 +329,16 @@ func SelfCheck(dir string) (report map[string]int, failures []string, err error)
 				fail(ln, "%v", err)
 			} else if !bytes.Equal(live, want) {
 				report["epc_live_differs"]++
+			}
+		case "baddecode":
+			bref, ok := blocks[fs[1]]
+			if !ok {
+				fail(ln, "undeclared block %s", fs[1])
+				continue
+			}
+			raw, _ := read(bref.file)
+			if _, err := DecodeBlock(sp, bref.fork, raw); err == nil {
+				fail(ln, "baddecode block decodes")
 			}
 		case "reload", "kickstart":
 			// markers / informational
